@@ -14,3 +14,29 @@ package parallel
 //@   params index
 //@   ensures result1 == nil ==> result0 == hashOf(index)
 //@   ensures result1 != nil ==> result0 == ""
+
+// ---- status.go: per-index status (C10) ----------------------------------------------------------------------------------------
+
+//@ pure finished(t execution.TaskRef) bool = !t.FinishTimestamp.IsZero()
+//@ pure running(t execution.TaskRef) bool = t.FinishTimestamp.IsZero() && !t.RunningTimestamp.IsZero()
+//@ pure succeededTask(t execution.TaskRef) bool = t.Status.Result == execution.TaskSucceeded
+//@ pure cntFin(ts []execution.TaskRef, n int) Int = n <= 0 ? 0 : cntFin(ts, n - 1) + (finished(ts[n - 1]) ? 1 : 0)
+//@ pure anySucc(ts []execution.TaskRef) bool = exists k int :: 0 <= k && k < len(ts) && succeededTask(ts[k])
+//@ pure anyRunning(ts []execution.TaskRef) bool = exists k int :: 0 <= k && k < len(ts) && running(ts[k])
+//@ pure allFin(ts []execution.TaskRef) bool = forall k int :: 0 <= k && k < len(ts) ==> finished(ts[k])
+// an index is exhausted when it has no succeeded task and at least maxAttempts finished ones
+//@ pure exhausted(ts []execution.TaskRef, maxAttempts int64) bool = !anySucc(ts) && cntFin(ts, len(ts)) >= maxAttempts
+
+//@ func getIndexStatus
+//@   tags C10
+//@   loop 1 invariant -1 <= rangeindex && rangeindex < len(tasks)
+//@   loop 1 invariant numTerminal == cntFin(tasks, rangeindex + 1) && numTerminal >= 0 && numRunning >= 0 && numStarting >= 0 && numTerminal + numRunning + numStarting == rangeindex + 1
+//@   loop 1 invariant (numTerminal == rangeindex + 1) <==> (forall k int :: 0 <= k && k <= rangeindex ==> finished(tasks[k]))
+//@   loop 1 invariant (numRunning > 0) <==> (exists k int :: 0 <= k && k <= rangeindex && running(tasks[k]))
+//@   loop 1 invariant succeeded <==> (exists k int :: 0 <= k && k <= rangeindex && succeededTask(tasks[k]))
+//@   loop 1 invariant !failed && status.CreatedTasks == len(tasks) && status.Hash == hash && status.Index == index && status.State == "" && status.Result == ""
+//@   ensures [C10,C14] identity: result.Index == index && result.Hash == hash && result.CreatedTasks == len(tasks)
+//@   ensures [C10] result-from-tasks: result.Result == (anySucc(tasks) ? execution.TaskSucceeded : (exhausted(tasks, maxAttempts) ? execution.TaskFailed : ""))
+//@   ensures [C10] state-from-tasks: result.State == (len(tasks) == 0 ? execution.IndexNotCreated
+//@        : (allFin(tasks) ? ((!anySucc(tasks) && !exhausted(tasks, maxAttempts)) ? execution.IndexRetryBackoff : execution.IndexTerminated)
+//@        : (anyRunning(tasks) ? execution.IndexRunning : execution.IndexStarting)))
